@@ -424,6 +424,22 @@ Lemma reader_sees_the_charge_before_the_appointment :
     [Some (TOut (OAddRes (AddOk 120 1 9 520))); Some (TOut (OSubRes (SubOk 10 520 [])))].
 Proof. vm_compute. repeat split; reflexivity. Qed.
 
+(* 8. get_appointment || the block at whose height the subscription expires and that carries the appointment's dispute
+      (no purge: 10 blocks of grace): the reader passes the expiry test (8 events: the gatekeeper is still at 121), the
+      block is processed (gatekeeper at 122 = expiry, tracker inserted), the reader finds the tracker.  Before the block
+      it is told the appointment, after it "subscription expired" *)
+Definition w_exp : tower :=
+  fst (run true (w_boot (mk_config 10 2 10)) [(ORegister 1, []); (OAdd (Some 1) 7 w_blob 20 1, []); (OConnect 2010 [], [])]).
+Definition w_connect_expiry_dispute : prog out := prog_of_op true [] w_exp (OConnect 2011 [7]).
+Definition w_get_across_block : list nat := repeat 0%nat 8 ++ repeat 1%nat 400 ++ repeat 0%nat 60.
+
+Lemma reader_straddles_the_expiring_block :
+  let ps := [get_p (Some 1) 7; w_connect_expiry_dispute] in
+  snd (run_sched w_exp ps w_get_across_block) = [Some (TOut (OGetRes (GetTrk 7 107))); Some (TOut OBlockRes)] /\
+  snd (run_sched w_exp ps (in_order [0; 1]%nat)) = [Some (TOut (OGetRes (GetApp 7 w_blob 20))); Some (TOut OBlockRes)] /\
+  snd (run_sched w_exp ps (in_order [1; 0]%nat)) = [Some (TOut (OGetRes (GetExpired 122))); Some (TOut OBlockRes)].
+Proof. vm_compute. repeat split; reflexivity. Qed.
+
 (* ------------------------------------------------------------------------------------------ *)
 (* the guard is necessary: add_appointment with the locator-cache guard dropped after the look-up (the
    store happens outside the critical section) — everything else unchanged — misses a breach: the
